@@ -32,6 +32,8 @@ profile('core-cancel', P.gen_core, cancels=0.5, cancel_sent=1.0, on_cancel_raise
 profile('core-ends', P.gen_core, cancels=0.25, p_resp_pub=0.7, p_req_pub=0.6, p_resp_sub=0.8, lib_streams=0.15,
         kinds=[(2, 'rr'), (3, 'stream'), (5, 'channel'), (1, 'fnf')])
 
+profile('refused-n', P.gen_refused_n, cancels=0.0, errors=False, stall_faults=0.0, max_count=20,
+        kinds=[(1, 'rr'), (4, 'stream'), (4, 'channel'), (1, 'fnf')])
 profile('core-ids', P.gen_ids, cancels=0.15)
 profile('core-ids-ends', P.gen_ids, cancels=0.0, errors=False, stall_faults=0.0,
         rr_modes=[(4, 'now'), (2, 'delay'), (2, 'hops')])  # only normal endings: no stale frames when a tiny id space comes round
@@ -136,8 +138,9 @@ CHECKS = {
     'C19': {'profiles': [('routing', 20000, 100000)], 'oracles': [XRT.oracle_c19], 'level': 'exploration'},
     'C20': {'profiles': [('rx', 16000, 80000)], 'oracles': [XRX.oracle_c20], 'level': 'exploration'},
     'C10': {'profiles': [('core-ends', 3500, 140000), ('core', 1500, 60000), ('core-frag', 1000, 40000),
-                         ('core-ids-ends', 1000, 40000), ('id-reuse-after-end', 3000, 100000), ('cancel-sweep', 16, 160)],
-            'oracles': {'cancel-sweep': [O.oracle_c10], 'core-ends': [O.oracle_c10], 'core': [O.oracle_c10], 'core-frag': [O.oracle_c10], 'core-ids-ends': [O.oracle_c10],
+                         ('core-ids-ends', 1000, 40000), ('id-reuse-after-end', 3000, 100000), ('cancel-sweep', 16, 160),
+                         ('refused-n', 1500, 15000)],
+            'oracles': {'cancel-sweep': [O.oracle_c10], 'core-ends': [O.oracle_c10], 'core': [O.oracle_c10], 'core-frag': [O.oracle_c10], 'core-ids-ends': [O.oracle_c10], 'refused-n': [O.oracle_c10],
                         'id-reuse-after-end': [PH.oracle_c10_reuse]}, 'level': 'exploration'},
 }
 
